@@ -297,3 +297,39 @@ Example C18_example_raw :
   view cs 1 pts [5; 7; 3; 6] fails false 2 = Some [2; 3]%nat /\
   view cs 1 pts [5; 7; 3; 6] [false; true; false; true] false 2 = Some [2; 1]%nat.
 Proof. cbv zeta. repeat split; vm_compute; reflexivity. Qed.
+
+(* "for all histories ... failures": an observation reported as FAILED still carries a stored number (a placeholder, a sentinel
+   such as 1e30 or the largest double, whatever the client sent).  The endpoint never reads it: the scale, the midpoint, the lie
+   and every compared value are functions of the successful values and the failure mask alone.  `overwrite fails vals junk` is
+   the history whose failed observations store the entries of `junk` instead (Model.KCenter); successes keep their values. *)
+Theorem C18_scaled_values_ignore_failed_values (maximize : bool) vals fails junk :
+  scaled_values maximize (overwrite fails vals junk) fails = scaled_values maximize vals fails.
+Proof. exact (scaled_values_overwrite maximize vals fails junk). Qed.
+Print Assumptions C18_scaled_values_ignore_failed_values.
+
+Theorem C18_view_ignores_failed_values cs tgt points vals fails maximize k junk :
+  view cs tgt points (overwrite fails vals junk) fails maximize k = view cs tgt points vals fails maximize k.
+Proof. exact (view_overwrite cs tgt points vals fails maximize k junk). Qed.
+Print Assumptions C18_view_ignores_failed_values.
+
+(* pointwise form: two histories of the same length that agree on every successful observation get the same scaled values and
+   the same answer *)
+Theorem C18_view_depends_on_successes_only cs tgt points vals vals' fails maximize k :
+  length vals = length fails -> length vals' = length fails ->
+  (forall t, (t < length fails)%nat -> nth t fails true = false -> nth t vals 0 = nth t vals' 0) ->
+  scaled_values maximize vals' fails = scaled_values maximize vals fails /\
+  view cs tgt points vals' fails maximize k = view cs tgt points vals fails maximize k.
+Proof. exact (view_agree cs tgt points vals vals' fails maximize k). Qed.
+Print Assumptions C18_view_depends_on_successes_only.
+
+(* non-vacuity: the fourth-observation history of C18_example_raw with the failed observation 1 storing 10^30 (a sentinel far
+   outside the successful values 5, 3, 4) or -10^30: `overwrite` really changes the history, the compared values and the answers
+   (both objectives) are those of the history that stores 7 there *)
+Example C18_example_failed_sentinel :
+  let cs := [CNum 0 4] in let pts := [[0]; [4]; [1]; [3]] in let fails := [false; true; false; false] in
+  let vals := [5; 7; 3; 4] in let big := 1000000000000000000000000000000 in
+  overwrite fails vals [0; big; 0; 0] = [5; big; 3; 4] /\
+  masked_values (scaled_values false [5; big; 3; 4] fails) fails = [Val (4 # 40); PInf; Val (-4 # 40); Val (0 # 40)] /\
+  view cs 1 pts [5; big; 3; 4] fails false 2 = Some [2; 3]%nat /\
+  view cs 1 pts [5; - big; 3; 4] fails true 2 = Some [0; 3]%nat.
+Proof. cbv zeta. repeat split; vm_compute; reflexivity. Qed.
